@@ -22,6 +22,7 @@ type pairState struct {
 	Kind string   `json:"ref_kind"` // term | self | node | sentinel | nil
 	Idx  int      `json:"ref_idx,omitempty"`
 	W    string   `json:"wrapper,omitempty"` // monotonicity: wrapper applied to e
+	R2   *tm.Term `json:"ref2_term,omitempty"` // isany-near: second reference
 }
 
 func (ps pairState) String() string {
@@ -161,6 +162,17 @@ func evalPairState(ps pairState) string {
 			}
 			return ""
 		}
+		if ps.R2 != nil {
+			r2 := ps.R2.Build()
+			i1, _ := tm.IsG(e, r)
+			i2, _ := tm.IsG(e, r2)
+			var got bool
+			p := tm.Guard(func() { got = errors.IsAny(e, r, r2) })
+			if p != nil || got != (i1 || i2) {
+				return fail("isany-near", "IsAny(e, r1, r2) = %v (panic=%v) but Is(e, r1)=%v, Is(e, r2)=%v", got, p != nil, i1, i2)
+			}
+			return ""
+		}
 		if ps.W == "" && (ps.Kind == "term" || ps.Kind == "termK") && ps.R != nil {
 			for c := ps.E; c != nil && !c.Op.HidesCause && c.Op.Kind != tm.KMulti; c = c.Kid {
 				if c.Op.SideIsReference && skeleton(c.Side[0]) == skeleton(ps.R) && c.Side[0].String() == ps.R.String() {
@@ -240,6 +252,9 @@ func reportPair(r *core.Result, ps pairState, m string) {
 	if min.W != "" {
 		k += "|w=" + min.W
 	}
+	if min.R2 != nil {
+		k += "|r2=" + skeleton(min.R2)
+	}
 	pairCache[pre] = k
 	r.Violate(k, textOf(evalPairState(min))+"\nminimal pair: "+min.String()+"\nfirst found as: "+ps.String(), min)
 }
@@ -295,7 +310,7 @@ func runC08(c *core.Ctx, r *core.Result) {
 	}
 	var wrappers []string
 	for _, w := range tm.Wrappers {
-		if !w.HidesCause {
+		if !w.HidesCause && w.Name != "HopThenWrap" { // HopThenWrap transfers e: not a pure wrapper
 			wrappers = append(wrappers, w.Name)
 		}
 	}
@@ -350,12 +365,33 @@ func runC08(c *core.Ctx, r *core.Result) {
 		}
 		// fresh copy and perturbed copies (both directions)
 		near := append([]*tm.Term{t.Clone()}, tm.Perturb(t)...)
+		var nearErrs []error
+		var nearIs []bool
 		for _, pt := range near {
 			pe := pt.Build()
 			pn := tm.BuildRNode(pe)
 			visit(pairState{E: t, R: pt, Kind: "term"}, e, pe, en, pn, true)
 			visit(pairState{E: pt, R: t, Kind: "term"}, pe, e, pn, en, false)
 			r.Transitions += 2
+			ok, _ := tm.IsG(e, pe)
+			nearErrs = append(nearErrs, pe)
+			nearIs = append(nearIs, ok)
+		}
+		// IsAny over every ordered pair of near references (same or nearly
+		// the same text, different types / chains): the disjunction of Is
+		for a := range nearErrs {
+			for b := range nearErrs {
+				if a == b {
+					continue
+				}
+				var got bool
+				p := tm.Guard(func() { got = errors.IsAny(e, nearErrs[a], nearErrs[b]) })
+				r.States++
+				if p != nil || got != (nearIs[a] || nearIs[b]) {
+					ps := pairState{E: t, R: near[a], Kind: "term", R2: near[b]}
+					reportPair(r, ps, fail("isany-near", "IsAny(e, r1, r2) = %v (panic=%v) but Is(e, r1)=%v, Is(e, r2)=%v (r1=%q %T, r2=%q %T)", got, p != nil, nearIs[a], nearIs[b], errText(nearErrs[a]), nearErrs[a], errText(nearErrs[b]), nearErrs[b]))
+				}
+			}
 		}
 		// references equivalent to the side arguments of e (mark references,
 		// secondary errors, format arguments): a fresh copy and a copy that
